@@ -326,6 +326,32 @@ def _stmt(p):
             else:
                 raise SqlError("unsupported ON CONFLICT action")
         return {"kind": "insert", "conflict": conflict, "table": table, "cols": cols, "values": vals, "upsert": upsert}
+    if p.peek() == ("kw", "CREATE") and p.peek(1) in (("kw", "UNIQUE"), ("kw", "INDEX")):
+        p.next()
+        unique = False
+        if p.peek()[1].upper() == "UNIQUE":
+            unique = True
+            p.next()
+        if p.peek()[1].upper() != "INDEX":
+            raise SqlError("unsupported CREATE statement")
+        p.next()
+        p.kw("IF", "NOT", "EXISTS")
+        name = p.expect("id")[1]
+        if p.peek()[1].upper() != "ON":
+            raise SqlError("CREATE INDEX without ON")
+        p.next()
+        table = p.expect("id")[1]
+        p.expect("op", "(")
+        cols = []
+        while True:
+            x = p.next()
+            if x[0] == "eof":
+                raise SqlError("unterminated CREATE INDEX")
+            if x == ("op", ")"):
+                break
+            if x[0] == "id":
+                cols.append(x[1])
+        return {"kind": "create_index", "unique": unique, "name": name, "table": table, "columns": cols}
     if p.kw("CREATE", "TABLE"):
         ine = p.kw("IF", "NOT", "EXISTS")
         table = p.expect("id")[1]
